@@ -12,8 +12,8 @@ TIERS = {"quick": {"runs": 2700, "chunk": 8}, "thorough": {"runs": 50000000, "wa
 RULE = ("one run = 2-3 simulated OS processes (baton-passing threads) each doing `async with "
         "ParallelEtherCat(...).run(): take 1-8 FMMU windows; stay a drawn time` (in 'churn' "
         "several times in a row), with drawn start times, pre-emption before every file "
-        "system, lock, bpf() and netlink operation (PCT bound 0-6 plus stalls at hot "
-        "points), in 'crash' one participant dies between two operations; the real "
+        "system, lock, bpf() and netlink operation (PCT bound 0-6 plus stalls of 1-30 ms, in a "
+        "third of the runs up to 400 ms - longer than a joiner waits -, at hot points), in 'crash' one participant dies between two operations; the real "
         "dispatcher is generated, loaded, attached and pinned in the kernel stub; "
         "invariants are evaluated at every yield point; distinct = distinct sequences of "
         "process switches; non-trivial = at least two participants were inside run() at the "
@@ -42,6 +42,9 @@ def run(tape, scenario):
     sched = env.use_scheduler(preempt_bound=tape.draw("sched/bound", 7),
                               preempt_den=[3, 6, 12][tape.draw("sched/den", 3)])
     sched.stall_rate = [0, 20, 50][tape.draw("cfg/stall-rate", 3)]
+    if tape.chance("cfg/long-stalls", 35):
+        # a node that is slow for longer than the 0.1 s a joiner waits for the program table
+        sched.stall_times = (1e-3, 30e-3, 150e-3, 400e-3)
     nproc = 2 + tape.draw("c23/nproc", 2)
     if scenario == "crash":
         sched.crash_rate = [1, 3, 8][tape.draw("cfg/crash-rate", 3)]
